@@ -22,10 +22,21 @@ esac
 # always rebuild from /repo's current working tree (seq_io is a path dependency: cargo fingerprints its sources)
 BUILD_LOG=$(mktemp /tmp/seqio_verif_build.XXXXXX)
 if ! (cd "$VERIF/$CRATE" && cargo build --release --offline) >"$BUILD_LOG" 2>&1; then
-  echo "INCONCLUSIVE: build of $CRATE failed"
-  tail -40 "$BUILD_LOG"
-  rm -f "$BUILD_LOG"
-  exit 2
+  if [ "$CRATE" = sched ] && (cd /repo && cargo build --offline) >/dev/null 2>&1; then
+    # /repo itself builds, but not with the shuttle shims (feature verif_hooks): e.g. a change to parallel.rs that uses
+    # a primitive the shims do not provide. Fall back to the real-thread tier (same drivers and oracles, no hook).
+    echo "NOTE: the hooked build (feature verif_hooks) failed; falling back to the real-thread tier (blackbox/)"
+    grep -E "^error" -A6 "$BUILD_LOG" | head -20
+    CRATE=blackbox; BIN=seqio_verif_blackbox
+    if ! (cd "$VERIF/$CRATE" && cargo build --release --offline) >"$BUILD_LOG" 2>&1; then
+      echo "INCONCLUSIVE: build of $CRATE failed too"; tail -40 "$BUILD_LOG"; rm -f "$BUILD_LOG"; exit 2
+    fi
+  else
+    echo "INCONCLUSIVE: build of $CRATE failed"
+    tail -40 "$BUILD_LOG"
+    rm -f "$BUILD_LOG"
+    exit 2
+  fi
 fi
 rm -f "$BUILD_LOG"
 
@@ -36,7 +47,7 @@ case "$TIER" in
   *) echo "unknown tier $TIER"; exit 2 ;;
 esac
 
-if [ "$CRATE" = sched ]; then
+if [ "$CRATE" = sched ] || [ "$CRATE" = blackbox ]; then
   # shuttle prints every failing schedule to stderr (also while shrinking); results go to stdout
   ERR_LOG=$(mktemp /tmp/seqio_verif_stderr.XXXXXX)
   timeout -k 10 "$LIMIT" "$VERIF/$CRATE/target/release/$BIN" "$ID" "$TIER" "$@" 2>"$ERR_LOG"
